@@ -48,8 +48,13 @@ fn run_t<T: Elem>(case: &mut Case) -> Outcome {
             _ => return Outcome::Discard("ill-conditioned-or-singular"),
         }
     }
-    let exact_x: Option<Vec<T>> = None;
-    let _ = exact_x;
+    // singular to working precision under the scaling actually applied: a pivot of the reference elimination of the
+    // scaled matrix is smaller than 64 n times the rounding noise of its own computation (found by a thorough run:
+    // entries 2^-36 next to 2^24 in the same rows are absorbed completely, the remaining 2x2 block is exactly
+    // singular in double precision and every solver returns NaN)
+    if !T::EXACT && !(refla::gepp(&ac, None).pivot_noise >= 64.0 * n as f64) {
+        return Outcome::Discard("singular to working precision under the applied scaling");
+    }
 
     // classification
     if n >= 3 {
